@@ -27,22 +27,27 @@ LEAN_TARGETS = ["Asynkit.Props.C04", "Asynkit.Lemmas.GenEqC04"]
 PROPS_FILES = ["Asynkit/Props/C04.lean", "Asynkit/Lemmas/GenEqC04.lean"]
 DRIVERS = ["Ctx"]
 TRUSTED = [
-    "Lean 4.33 kernel; axioms ⊆ {propext, Classical.choice, Quot.sound} (audited per theorem each run)",
-    "hand-written model Asynkit/Model/Ctx.lean of CoroStart/coro_await/coro_eager (src/asynkit/coroutine.py), "
-    "tied to the code by the differential correspondence of this run (lean/Drivers/Ctx.lean)",
-    "translator/ctxresume2lean.py: CoroStart._resume (the test on self.context, context.run(method,*args) vs "
-    "method(*args)) is re-translated on every run, and for every entry point of CoroStart it is recorded whether each "
-    "self.coro.send/throw/close goes through self._resume; coro_eager's context=copy_context(), coro_await's "
-    "context=context.  Lemmas/GenEqC04.lean proves resume = inCtx true, wraps = repaired (the model the theorems are about)",
+    'Lean 4.33 kernel; axioms ⊆ {propext, Classical.choice, Quot.sound} (audited per theorem each run)',
+    'hand-written and tied only by the differential correspondence of this run (lean/Drivers/Ctx.lean): the '
+    'control flow of Asynkit/Model/Ctx.lean (start_result handling, the __await__ relay loop, '
+    "athrow/aclose/throw(tries)/close, _Continuation's first-step rule) and the script bodies",
+    'translated, not trusted: which context a segment runs in - CoroStart._resume (test on self.context, '
+    'context.run vs plain call) and, per entry point, whether every self.coro.send/throw/close goes through it; '
+    "coro_eager's copy_context(), coro_await's context= - is read off the source on every run "
+    "(translator/ctxresume2lean.py -> Gen/CtxResume.lean) and proved to be the model's inCtx / `repaired` "
+    'wrapping (Lemmas/GenEqC04.lean, 5 theorems)',
     "modelled, not verified: contextvars.Context.run (mapping swapped in, writes land in that Context, caller's "
-    "context restored), copy_context(), the coroutine-object envelope and generator semantics of __await__ "
-    "(PEP 479, GeneratorExit handling), PEP-380 delegation of the athrow()/aclose()/coro_await wrappers, "
-    "collections.abc.Coroutine.close() of the _Continuation object coro_eager hands to its Task",
+    'context restored), copy_context(), the coroutine-object envelope and generator semantics of __await__ (PEP '
+    '479, GeneratorExit handling), PEP-380 delegation of the athrow()/aclose()/coro_await wrappers, '
+    'collections.abc.Coroutine.close() of the _Continuation object coro_eager hands to its Task',
 ]
 ASSUMPTIONS = [
-    "the supplied Context is not the one the caller is currently running in (Context.run would raise RuntimeError)",
-    "drivers are sequential (no re-entrant resume of a running coroutine)",
-    "ContextVars are read with a default (an unset variable reads as its default, 0 in the model)",
+    'the supplied Context is not the one the caller is currently running in (Context.run would raise '
+    'RuntimeError)',
+    'drivers are sequential (no re-entrant resume of a running coroutine)',
+    'ContextVars are read with a default (an unset variable reads as its default, 0 in the model)',
+    'nested use (a coroutine in a context starting another one) and one Context used twice are outside the Lean '
+    'model (sequential drivers): those streams are checked by the oracle only',
 ]
 RULE = ("case = body script (1-4 suspension points; per point a send/except/finally entry of 0-3 set/get actions "
         "over 3 ContextVars and a terminal await|return|raise|re-raise) x mode {CoroStart(context=ctx), "
